@@ -410,9 +410,17 @@ func (vc *VC) specIdx(i *Val) string {
 		return bvLit(64, i.N)
 	case KBV:
 		if vc.intMode {
+			if n, ok := intLitBig(i.C[0]); ok {
+				return bvLit(64, n)
+			}
 			return app("(_ int2bv 64)", i.C[0])
 		}
 		return bvConv(i.C[0], i.W, i.Signed, 64)
+	case KInt:
+		if n, ok := intLitBig(i.C[0]); ok {
+			return bvLit(64, n)
+		}
+		return app("(_ int2bv 64)", i.C[0])
 	}
 	sfail("index must be an integer")
 	return ""
